@@ -29,8 +29,9 @@ def judge(rec, props: tuple, case: dict, *, want=None, extra=None, key=None, sli
     d = model.compare(case["truth"], ob)
     n = sum(d.evals.get(p, 0) for p in props)
     rec.ev(n)
-    for k, v in d.classes.items():
-        rec.cls(k, v)
+    if "C01" in props:
+        for k, v in d.classes.items():
+            rec.cls(k, v)
     mine = select(d, props, extra)
     if mine:
         p, kind, msg = mine[0]
